@@ -403,6 +403,20 @@ def catalogue(big=False):
                                [call("G"), call("SUB", binds={"n": split(ref("G", "ys"))}, mode="array")],
                                {"o": ref("SUB", "rs")})], "TOP", {}))
 
+    # 14f. a pipeline mapped over the result of another mapped call hands one of its inputs
+    #      straight through; the consumer of that output has no other tie to the mapped calls
+    P.append(program("map_chain_passthrough", [],
+                     [S_const("GEN", "int[] ys", {"ys": [1, 2, 3]}), S_echo("Q"), S_echo("W"), S_const("SLOW", "int y", {"y": 9}),
+                      stage("CONS", "int[] ts, int s", "string r", {"r": INST})],
+                     [pipeline("P", "int x, int tag", "int o, int t",
+                               [call("W", binds={"x": self_("x")})], {"o": ref("W", "y"), "t": self_("tag")}),
+                      pipeline("TOP", "", "string r, int[] os",
+                               [call("GEN"), call("Q", binds={"x": split(ref("GEN", "ys"))}, mode="array"),
+                                call("P", binds={"x": split(ref("Q", "y")), "tag": lit(5)}, mode="array"),
+                                call("SLOW"),
+                                call("CONS", binds={"ts": ref("P", "t"), "s": ref("SLOW", "y")})],
+                               {"r": ref("CONS", "r"), "os": ref("P", "o")})], "TOP", {}))
+
     # 15. typed maps with keys that stress fork naming and journal routing
     for nm, keys in (("keys_suffix", ["a_b", "b"]), ("keys_encoded", ["a b", "a%20b"]),
                      ("keys_dots", ["k.1", "k/1", "%2E"]), ("keys_fork", ["fork1", "chnk0", "u0123456789"])):
